@@ -9,7 +9,7 @@ import (
 func init() {
 	register(&Check{
 		ID: "C14", Level: "exploration", QuickSecs: 170, ThoroughSecs: 1500,
-		Rule:        "all expressions over {'a','b',%{l},%{m},A} x {?,*,&,!} x seq/choice x recovery operators with label sets {l},{m},{l,m} (nested, side by side, throws inside guarded expressions, repetitions, predicates, later alternatives and inside recovery expressions; recovery expressions that succeed consuming or empty, fail, or throw again) up to N nodes (quick 5, thorough 6) containing at least one throw, rule A from {%{l}, 'a' %{l}, %{m} / 'a', 'a' //{l} 'b', ('a' %{l}) //{l} 'b', (%{m} / 'a' %{l}) //{l,m} 'b'?}; inputs over {a,b} up to L=3; 2 generation flag sets, and for bodies up to 3 (thorough 4) nodes that use A also -optimize-grammar (with and without -optimize-parser), where A is inlined. Oracle: reference interpreter with an explicit dynamic handler stack (pushed on entering the guarded expression, popped on leaving it; innermost handler listing the label first, falling through outwards when a recovery expression fails, plain failure if none succeeds, value of the recovery in place of the throw, parsing continues after it). Self-rethrowing handlers: both sides must not terminate normally. Non-trivial = a throw was caught by a handler (reference evaluated a recovery expression).",
+		Rule:        "all expressions over {'a','b',%{l},%{m},A} x {?,*,&,!} x seq/choice x recovery operators with label sets {l},{m},{l,m} (nested, side by side, throws inside guarded expressions, repetitions, predicates, later alternatives and inside recovery expressions; recovery expressions that succeed consuming or empty, fail, or throw again) up to N nodes (quick 5, thorough 6) containing at least one throw, rule A from {%{l}, 'a' %{l}, %{m} / 'a', 'a' //{l} 'b', ('a' %{l}) //{l} 'b', (%{m} / 'a' %{l}) //{l,m} 'b'?}; inputs over {a,b} up to L=3; 2 generation flag sets, and for bodies up to 3 (thorough 4) nodes that use A also -optimize-grammar (with and without -optimize-parser), where A is inlined. Oracle: reference interpreter with an explicit dynamic handler stack (pushed on entering the guarded expression, popped on leaving it; innermost handler listing the label first, falling through outwards when a recovery expression fails, plain failure if none succeeds, value of the recovery in place of the throw, parsing continues after it). Self-rethrowing handlers: both sides must not terminate normally. Non-trivial = a throw was caught by a handler (reference evaluated a recovery expression). Plus a two-recovery-operator family (one after the other, in two alternatives, nested in the guarded / in the recovery expression, in a loop, in two mutually recursive rules x label sets {l},{m},{l,m} x 6 guards x 3-4 recovery expressions), left-recursive rules that throw (finding D35) and the cross family (cross.go: every body with a throw or recovery operator, 16 flag sets).",
 		Assumptions: []string{"E1 loader", "labels are not used in this family (scope of recovery blocks is discussed in DESIGN 4.C02)"},
 		Run:         runC14,
 	})
